@@ -43,3 +43,13 @@ Record lbpconsts := mkLbp {
   array_bp : Z;                  (* arrayOp.Bp *)
   array_led : ledk               (* arrayOp.MunchLeft *)
 }.
+
+(* constants of lowerGoFor / lowerRangeFor read from the source *)
+Record forconsts := mkFor {
+  fc_nsemi : nat;          (* a three-clause header has exactly this many semicolons *)
+  fc_guard_le : bool;      (* the guard before header[assignPos+off] is `len(header) <= assignPos+off` (true) or `<` (false) *)
+  fc_guard_off : nat;      (* off in the guard *)
+  fc_index_off : nat;      (* header[assignPos+off] *)
+  fc_source_off : nat      (* header[assignPos+off:] *)
+}.
+
